@@ -37,31 +37,51 @@ def splitNats (sep : String) (s : String) : Option (List Nat) := (s.splitOn sep)
 
 def listOf (s : String) : List String := if s == "-" || s.isEmpty then [] else s.splitOn ","
 
+/-- legacy single-asset view of a ledger w.r.t. the INITIAL distribution asset `d0`:
+    `-` empty, the amount when it is exactly one entry in `d0`, `X` otherwise -/
+def showLegacy (d0 : Nat) : Distributor.Ledger → String
+  | [] => "-"
+  | [(a, x)] => if a == d0 then toString x else "X"
+  | _ => "X"
+
+/-- a ledger per asset, in vector order: `-` | `asset.amount[+asset.amount…]` -/
+def showLedger (l : Distributor.Ledger) : String :=
+  joinOr "+" (l.map fun (p : Nat × Nat) => s!"{p.1}.{p.2}")
+
 def observe (cfg : Feeflow.Cfg) (s : Feeflow.St) : String :=
   let n := cfg.c.nassets
+  let d0 := cfg.c.dist
   let users := List.range cfg.nusers
+  let assets := List.range n
   let eps := s.d.epochs.map fun e =>
-    s!"{e.id}:{e.start}:{showOpt e.total}:{showOpt e.avail}:{showOpt e.claimed}"
+    s!"{e.id}:{e.start}:{showLegacy d0 e.total}:{showLegacy d0 e.avail}:{showLegacy d0 e.claimed}"
+  let epa := s.d.epochs.map fun e =>
+    s!"{e.id}:{showLedger e.total}:{showLedger e.avail}:{showLedger e.claimed}"
   let trh := s.c.trh.map fun (p : Nat × Nat) => s!"{p.1}:{p.2}"
   let cl := users.map fun u => joinOr "." ((Distributor.claimable s.d u (s.view u)).map toString)
   let pp := s.c.pools.map fun p => s!"{p.pa}:{p.pb}"
   let vp := s.c.vaults.map fun v => toString v.pend
   "grace=" ++ toString s.d.grace ++
-  " dbal=" ++ toString s.d.bal ++
-  " dao=" ++ toString s.c.dao ++
+  " dbal=" ++ toString (s.d.bal d0) ++
+  " dao=" ++ toString (s.daoBal d0) ++
   " cbal=" ++ joinOr "," ((List.range n).map fun i => toString (s.c.bal i)) ++
   " ep=" ++ joinOr ";" eps ++
   " trh=" ++ joinOr ";" trh ++
-  " ub=" ++ joinOr "," (users.map fun u => toString (s.ub u)) ++
+  " ub=" ++ joinOr "," (users.map fun u => toString (s.ub u d0)) ++
   " cl=" ++ "|".intercalate cl ++
   " pp=" ++ "|".intercalate pp ++
   " vp=" ++ joinOr "|" vp ++
   " reg=" ++ String.join (s.c.pools.map fun p => bit p.reg) ++
   " on=" ++ String.join (s.c.pools.map fun p => bit p.on) ++
-  " rt=" ++ joinOr "," ((List.range n).map fun i => toString (s.c.routes i).length) ++
+  " rt=" ++ joinOr "," (assets.map fun i => toString (if i == s.d.dist then 0 else (s.rts s.d.dist i).length)) ++
   " rate=" ++ toString s.c.rate ++
   " active=" ++ bit s.c.active ++
-  " daoset=" ++ bit s.c.daoSet
+  " daoset=" ++ bit s.c.daoSet ++
+  " dist=" ++ toString s.d.dist ++
+  " epa=" ++ joinOr ";" epa ++
+  " dbala=" ++ joinOr "," (assets.map fun a => toString (s.d.bal a)) ++
+  " daoa=" ++ joinOr "," (assets.map fun a => toString (s.daoBal a)) ++
+  " uba=" ++ joinOr "," (users.map fun u => ".".intercalate (assets.map fun a => toString (s.ub u a)))
 
 def init (ws : List String) : Option FeeflowState :=
   let m := kvs ws
@@ -78,10 +98,10 @@ def init (ws : List String) : Option FeeflowState :=
         cfg := { d := { genesis := genesis, duration := dur, owner := ADMIN },
                  c := { dist := dist, nassets := nassets, distributor := DISTRIBUTOR, owner := ADMIN },
                  nusers := nusers },
-        st := { d := Distributor.St.init grace,
+        st := { d := Distributor.St.init grace dist,
                 c := { bal := fun _ => 0, rate := 0, active := false, daoSet := false, dao := 0, trh := [],
                        pools := pools, vaults := vaults, routes := fun _ => [] },
-                view := fun _ => none, ub := fun _ => 0 } }
+                view := fun _ => none, ub := fun _ _ => 0, daoBal := fun _ => 0, rts := fun _ _ => [] } }
     | _, _ => none
   | _, _, _, _, _ => none
 
@@ -113,16 +133,22 @@ def resCode (s : String) : Option Nat :=
 def optBool (s : String) : Option (Option Bool) :=
   if s == "-" then some none else if s == "0" then some (some false) else if s == "1" then some (some true) else none
 
-/-- the hops of a route kind for `asset` (the harness's `addroute`): direct, or through the other
-    non-distribution asset -/
-def hopsOf (cfg : Feeflow.Cfg) (asset : Nat) (kind : String) : Option (List (Nat × Nat)) :=
-  let dist := cfg.c.dist
-  if kind == "direct" then some [(asset, dist)]
+/-- the hops of a route kind `asset → ask` (the harness's `addroute`): direct, or through the first
+    asset that is neither of the two -/
+def hopsOf (cfg : Feeflow.Cfg) (asset ask : Nat) (kind : String) : Option (List (Nat × Nat)) :=
+  if kind == "direct" then some [(asset, ask)]
   else if kind == "twohop" then
-    match (List.range cfg.c.nassets).find? fun j => j != asset && j != dist with
-    | some j => some [(asset, j), (j, dist)]
+    match (List.range cfg.c.nassets).find? fun j => j != asset && j != ask with
+    | some j => some [(asset, j), (j, ask)]
     | none => none
   else none
+
+/-- the ask asset of an `addroute` / `rmroute` line: an optional third argument, default = the initial
+    distribution asset -/
+def askOf (cfg : Feeflow.Cfg) : List String → Option Nat
+  | [] => some cfg.c.dist
+  | [x] => x.toNat?.map fun a => a % cfg.c.nassets
+  | _ => none
 
 /-- the `limit` argument of a factory page: `-` = `None`, a number = `Some(n)` -/
 def limit? (s : String) : Option (Option Nat) := if s == "-" then some none else s.toNat?.map some
@@ -182,11 +208,15 @@ def parseOp (cfg : Feeflow.Cfg) (now sender : Nat) (op : String) (args : List St
     match a.toNat?, x.toNat? with
     | some a, some x => if tgt == "col" then some (.gift true a x) else if tgt == "dist" then some (.gift false a x) else none
     | _, _ => none
-  | "addroute", [a, kind] =>
-    match a.toNat? with
-    | some a => (hopsOf cfg a kind).map fun h => .addRoute sender a h
-    | none => none
-  | "rmroute", [a, _] => a.toNat?.map fun a => .rmRoute sender a
+  | "addroute", a :: kind :: rest =>
+    match a.toNat?, askOf cfg rest with
+    | some a, some ask => (hopsOf cfg (a % cfg.c.nassets) ask kind).map fun h => .addRoute sender (a % cfg.c.nassets) ask h
+    | _, _ => none
+  | "rmroute", a :: _ :: rest =>
+    match a.toNat?, askOf cfg rest with
+    | some a, some ask => some (.rmRoute sender (a % cfg.c.nassets) ask)
+    | _, _ => none
+  | "distasset", [a] => a.toNat?.map fun a => .setDist sender (a % cfg.c.nassets)
   | "unreg", [p] => p.toNat?.map fun p => .unreg sender p
   | "toggle", [p, o] =>
     match p.toNat?, o.toNat? with
@@ -213,7 +243,7 @@ def recordedCovers (cfg : Feeflow.Cfg) (s : Feeflow.St) (op : Feeflow.Op) (rcd :
       o.swaps.length == outs.length && o.swaps.all fun sw => (lookup2 outs sw.1 sw.2.1).isSome
     | _, _ => true
   | .aggregate sender f router acc =>
-    match Collector.aggregateFees cfg.c s.c sender f router acc, parseKeyed (lookupStr rcd "@outs" "?") with
+    match Collector.aggregateFees (Feeflow.ccfg cfg s) (Feeflow.cview s) sender f router acc, parseKeyed (lookupStr rcd "@outs" "?") with
     | .ok (_, _, sws), some outs =>
       sws.length == outs.length && sws.all fun sw => (lookup2 outs sw.1 sw.2.1).isSome
     | _, _ => true
